@@ -11,4 +11,5 @@ Extraction "../ocaml/gen/ModelC03.ml"
   sm3_kdf_stream sm2_kdf sm3_kdf_spec sm3_pbkdf2 sm3_pbkdf2_spec
   sm3_hkdf_extract sm3_hkdf_expand sm3_hkdf_extract_spec sm3_hkdf_expand_spec
   sha256_hkdf_extract sha256_hkdf_expand sha256_hkdf_extract_spec sha256_hkdf_expand_spec
-  sm3_from_state sm3_from_state_spec.
+  sm3_from_state sm3_from_state_spec sha1_from_state sha1_from_state_spec
+  sha256_from_state sha256_from_state_spec sha512_from_state sha512_from_state_spec.
